@@ -74,6 +74,12 @@ func entityKeys(v any, out map[string]bool) {
 			if sku, ok := x["sku"]; ok {
 				out[tn+"|sku|"+ref.Canon(sku)] = true
 			}
+			// nested key '@key(fields: "info { kid }")'
+			if info, ok := x["info"].(map[string]any); ok {
+				if kid, ok := info["kid"]; ok {
+					out[tn+"|info.kid|"+ref.Canon(kid)] = true
+				}
+			}
 		}
 		for _, vv := range x {
 			entityKeys(vv, out)
@@ -177,6 +183,11 @@ func runGated(gw *kit.Gateway, op opgen.Op, root *plan.SynchronousResponsePlan, 
 						for k, v := range rm {
 							if k == "id" || k == "sku" {
 								if available[tn+"|"+k+"|"+ref.Canon(v)] {
+									okKey = true
+								}
+							}
+							if info, isObj := v.(map[string]any); isObj && k == "info" {
+								if available[tn+"|info.kid|"+ref.Canon(info["kid"])] {
 									okKey = true
 								}
 							}
